@@ -74,6 +74,12 @@ func copyDir(src, dst string) {
 			copyDir(filepath.Join(src, e.Name()), filepath.Join(dst, e.Name()))
 			continue
 		}
+		if e.Type()&os.ModeSymlink != 0 {
+			if target, err := os.Readlink(filepath.Join(src, e.Name())); err == nil {
+				_ = os.Symlink(target, filepath.Join(dst, e.Name()))
+			}
+			continue
+		}
 		b, err := os.ReadFile(filepath.Join(src, e.Name()))
 		if err == nil {
 			_ = os.WriteFile(filepath.Join(dst, e.Name()), b, 0644)
